@@ -130,9 +130,16 @@ def _gen_failing_step(rng, sim, named):
         if v == "gfa1" and r1.rt in ("S", "P") and not S.fm("name1", n2):
             return None
         return {"op": "rename", "name": n1, "new": n2, "rt": r1.rt, "expect": "model"}
-    if k < 0.65:
+    if k < 0.60:
         return {"op": "rm", "how": "name", "name": rng.choice(["nosuch", "*", "", "?"]), "rt": "?",
                 "text": "", "expect": "fail"}
+    if k < 0.65 and named:
+        # rename to a name the datatype of the identifier cannot hold
+        n, r = rng.choice(named)
+        if r.rt in ("L", "C"):
+            return None
+        return {"op": "rename", "name": n, "new": rng.choice([" ", "a b", "", "a\tb"]), "rt": r.rt,
+                "expect": "fail"}
     if k < 0.80:
         # version conflict / malformed line
         if v == "gfa1":
@@ -430,6 +437,8 @@ def _fail_class(st, model):
             return "duplicate-add/" + rt
         return "bad-add/" + rt
     if st["op"] == "rename":
+        if st.get("expect") == "fail":
+            return "rename-to-invalid/" + st.get("rt", "?")
         return "rename-to-used/" + st.get("rt", "?")
     if st["op"] == "rm":
         return "rm-unknown"
